@@ -172,6 +172,11 @@ def run(ctx):
             obs[j0] = Fr(1, 2); ctx.count("npcdist-round-trip-hazard")
         szdt = ctx.rng.choice([float, float, np.int64, np.int32, np.int16, np.int8, np.uint8, np.uint16]); ctx.count("size-dtype-" + np.dtype(szdt).name)
         Df = np.array([[float(v) for v in r_] for r_ in D]); sz = np.array(size, dtype=szdt)
+        if not use_p and ctx.rng.random() < 0.3:
+            # a distribution saved in single / half precision (eighths are exact there) and double-precision references a hair above or
+            # below a stored value: the comparison is between the numbers, not between their roundings to the narrow type
+            ndt = ctx.rng.choice([np.float32, np.float16]); Df = Df.astype(ndt); ctx.count("npcdist-stored-as-" + np.dtype(ndt).name)
+            obs = [v + ctx.rng.choice([Fr(0), Fr(1, 2**30), -Fr(1, 2**30), Fr(1, 2**40), Fr(1, 2**13) if ndt is np.float16 else Fr(1, 2**26)]) for v in obs]
         if use_p:
             r = guarded(irr.simulate_npc_dist, Df, sz, None, np.array([float(v) for v in pv]), plus1)
         else:
